@@ -69,6 +69,21 @@ class Obs:
 # ------------------------------------------------------------------ C03
 def obs_c03(o):
     pairs = sorted((o.ext(c), o.int_(c)) for c in o.concepts)
+    # the lattice of a context that has already answered other queries is the same lattice
+    if o.n <= 200:
+        try:
+            c2 = util.make_context(o.cx)
+            objs = o.cx.objects
+            for t in ([objs[0]], list(objs[:2]), [objs[-1]], []):
+                c2.neighbors(t)
+                c2.intension(t)
+            c2[(o.cx.properties[0],)]
+            pairs2 = sorted((util.bits_of(c.extent, o.cx.objects), util.bits_of(c.intent, o.cx.properties)) for c in c2.lattice)
+            again = sorted((util.bits_of(c.extent, o.cx.objects), util.bits_of(c.intent, o.cx.properties)) for c in type(c2.lattice)(c2))
+            if pairs2 != pairs or again != pairs or len(c2.lattice) != len(pairs):
+                pairs = pairs + [(-1, -1)]
+        except Exception:  # noqa: BLE001
+            pairs = pairs + [(-2, -2)]
     nontrivial = o.n >= 3 and any(o.cx.nG - len(c.extent) > len(c.upper_neighbors) for c in o.concepts)
     term = f'({o.head()}, {coq(pairs)}, {len(o.lattice)}%nat)'
     subs = [{'extent': e, 'intent': i} for e, i in pairs]
@@ -91,13 +106,13 @@ def obs_c05(o):
         if len({len(u.extent) for u in c.upper_neighbors}) >= 2 or o.cx.nG - len(c.extent) > len(c.upper_neighbors):
             nontrivial = True
     queries = []
-    limit = 6 if o.tier == 'quick' else 9
+    limit = 6 if o.tier == 'quick' else 7
     for t in itertools.islice(gen.subsets(o.cx.nG, limit, o.r, extra=24), 1500):
         labs = [o.cx.objects[i] for i in t]
 
         def call():
-            res = o.ctx.neighbors(labs)
-            raw = o.ctx.neighbors(labs, raw=True)
+            res = o.ctx.neighbors(iter(labs) if len(queries) % 3 == 1 else labs)
+            raw = o.ctx.neighbors((x for x in labs) if len(queries) % 3 == 2 else labs, raw=True)
             pairs = sorted((util.bits_of(e, o.cx.objects), util.bits_of(i, o.cx.properties)) for e, i in res)
             if sorted((int(e), int(i)) for e, i in raw) != pairs or len(set(pairs)) != len(pairs):
                 pairs = pairs + [(-1, -1)]
@@ -176,7 +191,7 @@ def obs_c06(o):
 # ------------------------------------------------------------------ C02
 def obs_c02(o):
     cx = o.cx
-    limit = 5 if o.tier == 'quick' else 8
+    limit = 5 if o.tier == 'quick' else 6
     cq, lq, subs_c, subs_l = [], [], [], []
     nontrivial = False
     itemlists = []
@@ -198,7 +213,7 @@ def obs_c02(o):
 
         def call():
             e, i = o.ctx[labs]
-            re_, ri = o.ctx.__getitem__(labs, raw=True)
+            re_, ri = o.ctx.__getitem__(iter(labs) if len(cq) % 2 else labs, raw=True)
             if re_.members() != e or ri.members() != i:
                 raise AssertionError('raw and label forms differ')
             return (int(re_), int(ri)), (natlist(util.idx(e, cx.objects)), natlist(util.idx(i, cx.properties)))
@@ -263,7 +278,8 @@ def obs_c07(o):
     for args in arglists:
         for is_join in (True, False):
             cs = [o.concepts[i] for i in args]
-            tag, res = guarded(lambda: o.p(o.lattice.join(cs) if is_join else o.lattice.meet(cs)), 0)
+            form = [list, tuple, iter, lambda l: (x for x in l), lambda l: map(lambda x: x, l)][len(nary) % 5]
+            tag, res = guarded(lambda: o.p(o.lattice.join(form(cs)) if is_join else o.lattice.meet(form(cs))), 0)
             nary.append((is_join, natlist(args), tag, nat(res)))
             subs_n.append({'call': 'Lattice.join' if is_join else 'Lattice.meet', 'args': args, 'tag': tag, 'result': res})
     term = f'({o.head()}, {coq(nary)}, {coq(binary)})'
@@ -283,7 +299,7 @@ def obs_c09(o):
             tag, res = guarded(lambda: [o.p(x) for x in fn()], [])
             qs.append((kind, natlist([i]), tag, natlist(res)))
             subs.append({'call': 'upset' if kind == 0 else 'downset', 'concept': list(c.extent), 'tag': tag, 'result': res})
-    if n <= 10:
+    if n <= (8 if o.tier == 'quick' else 12):
         multis = [[i, j] for i in range(n) for j in range(n)]
     else:
         multis = [[o.r.randrange(n), o.r.randrange(n)] for _ in range(40)]
@@ -294,13 +310,27 @@ def obs_c09(o):
     nontrivial = False
     for args in multis:
         cs = [o.concepts[i] for i in args]
+        form = [list, tuple, iter, lambda l: (x for x in l)][len(qs) % 4]
         for kind, fn in ((2, o.lattice.upset_union), (3, o.lattice.downset_union)):
-            tag, res = guarded(lambda: [o.p(x) for x in fn(cs)], [])
+            tag, res = guarded(lambda: [o.p(x) for x in fn(form(cs))], [])
             qs.append((kind, natlist(args), tag, natlist(res)))
             subs.append({'call': 'upset_union' if kind == 2 else 'downset_union', 'args': args, 'tag': tag, 'result': res})
         if len(args) >= 2 and (len(set(args)) < len(args) or any(
                 a != b and (o.concepts[a] < o.concepts[b]) for a in args for b in args)):
             nontrivial = True
+    # a traversal fed directly into a union (one-shot iterable argument)
+    if n >= 2:
+        for _ in range(2):
+            i = o.r.randrange(n)
+            x = o.concepts[i]
+            down = [o.p(c) for c in x.downset()]
+            tag, res = guarded(lambda: [o.p(c) for c in o.lattice.upset_union(x.downset())], [])
+            qs.append((2, natlist(down), tag, natlist(res)))
+            subs.append({'call': 'upset_union(c.downset())', 'concept': list(x.extent), 'tag': tag, 'result': res})
+            up = [o.p(c) for c in x.upset()]
+            tag, res = guarded(lambda: [o.p(c) for c in o.lattice.downset_union(x.upset())], [])
+            qs.append((3, natlist(up), tag, natlist(res)))
+            subs.append({'call': 'downset_union(c.upset())', 'concept': list(x.extent), 'tag': tag, 'result': res})
     # interleaved, lock-step and abandoned traversals (generators must not share state)
     if n >= 2:
         for _ in range(3):
@@ -367,6 +397,19 @@ def obs_c10(o):
     lines = str(o.lattice).split('\n')[1:]
     if lines != [f'    {c}' for c in o.concepts]:
         per.append((natlist([3999]), natlist([]), natlist([])))
+    # copies of the lattice carry the same labelling
+    if o.n <= 300:
+        import copy
+        import pickle
+        want = [(c.objects, c.properties, tuple(a.index for a in c.atoms)) for c in o.concepts]
+        for name, fn in (('pickle', lambda: pickle.loads(pickle.dumps(o.lattice))), ('deepcopy', lambda: copy.deepcopy(o.lattice))):
+            try:
+                got = [(c.objects, c.properties, tuple(a.index for a in c.atoms)) for c in fn()]
+            except Exception:  # noqa: BLE001
+                got = None
+            if got != want:
+                per.append((natlist([3999]), natlist([]), natlist([])))
+                subs.append({'copy of the lattice': name, 'labels': 'differ from the original'})
     term = f'({o.head()}, {coq(per)})'
     return term, nontrivial, subs
 
@@ -382,7 +425,19 @@ def obs_c18(o):
         if len(c.intent) > limit or budget <= 0:
             continue
         budget -= 1 << len(c.intent)
-        tag, attrs = guarded(lambda: [util.idx(a, cx.properties) for a in c.attributes()], [])
+        def attrs_call():
+            full = [util.idx(a, cx.properties) for a in c.attributes()]
+            # two live iterators over the same concept must not disturb each other
+            it1, it2 = c.attributes(), c.attributes()
+            first = [next(it1, None)]
+            second = list(it2)
+            first += list(it1)
+            third = list(c.attributes())
+            if [util.idx(a, cx.properties) for a in first if a is not None] != full or \
+               [util.idx(a, cx.properties) for a in second] != full or [util.idx(a, cx.properties) for a in third] != full:
+                return full + [[7777]]
+            return full
+        tag, attrs = guarded(attrs_call, [])
         tag2, mini = guarded(lambda: util.idx(c.minimal(), cx.properties), [])
         per.append((nat(i), tag, [natlist(a) for a in attrs], tag2, natlist(mini)))
         subs.append({'concept_extent': list(c.extent), 'attributes': attrs, 'minimal': mini, 'tags': [tag, tag2]})
@@ -404,11 +459,16 @@ def obs_c20(o):
     opos = {l: i for i, l in enumerate(cx.objects)}
     ppos = {l: i for i, l in enumerate(cx.properties)}
 
-    def olabel(objs):
-        return 'O_' + '_'.join(str(opos.get(x, 7777)) for x in objs)
-
-    def plabel(props):
-        return 'P_' + '_'.join(str(ppos.get(x, 7777)) for x in props)
+    # label callbacks are lambdas of one scope (same __qualname__): a result cached per callback name would show
+    olabel = lambda objs: 'O_' + '_'.join(str(opos.get(x, 7777)) for x in objs)      # noqa: E731
+    plabel = lambda props: 'P_' + '_'.join(str(ppos.get(x, 7777)) for x in props)    # noqa: E731
+    dummy_o = lambda objs: 'O_9999'                                                  # noqa: E731
+    dummy_p = lambda props: 'P_9999'                                                 # noqa: E731
+    try:
+        o.lattice.graphviz()                                              # default callbacks first
+        o.lattice.graphviz(make_object_label=dummy_o, make_property_label=dummy_p)
+    except Exception:  # noqa: BLE001
+        pass
     stmts, subs = [], []
     try:
         dot = o.lattice.graphviz(make_object_label=olabel, make_property_label=plabel)
